@@ -74,7 +74,9 @@ impl Datagrams<'_> {
             .peer_params
             .max_datagram_frame_size?
             .into_inner()
-            .saturating_sub(Datagram::SIZE_BOUND as u64);
+            // A limit of 0 means the peer does not support DATAGRAM frames (RFC 9221 §3), and a
+            // limit too small for the frame header cannot carry even an empty datagram
+            .checked_sub(Datagram::SIZE_BOUND as u64)?;
         Some(limit.min(max_size as u64) as usize)
     }
 
